@@ -129,6 +129,14 @@ Update(id) ==
   /\ tbl' = [i \in 1..Len(tbl) |-> IF tbl[i].id = id THEN [tbl[i] EXCEPT !.v = (@ % 3) + 1] ELSE tbl[i]]
   /\ out' = Ok /\ UNCHANGED <<base, cur>>
 
+\* REPLACE INTO t (id, v) USING (id) VALUES (id, v): the rows with that id get the value, or the row is appended
+Replace(id, v) ==
+  /\ (\E i \in 1..Len(tbl) : tbl[i].id = id) \/ Len(tbl) < MaxRows
+  /\ tbl' = IF \E i \in 1..Len(tbl) : tbl[i].id = id
+              THEN [i \in 1..Len(tbl) |-> IF tbl[i].id = id THEN [tbl[i] EXCEPT !.v = v] ELSE tbl[i]]
+              ELSE Append(tbl, [id |-> id, v |-> v])
+  /\ out' = Ok /\ UNCHANGED <<base, cur>>
+
 Delete(id) ==
   /\ tbl' = SelectSeq(tbl, LAMBDA r : r.id # id)
   /\ out' = Ok /\ UNCHANGED <<base, cur>>
@@ -155,6 +163,7 @@ Do(a) ==
     [] a.act = "insert"   -> Insert(a.id, a.v)
     [] a.act = "update"   -> Update(a.id)
     [] a.act = "delete"   -> Delete(a.id)
+    [] a.act = "replace"  -> Replace(a.id, a.v)
     [] a.act = "commit"   -> Commit
     [] a.act = "rollback" -> Rollback
     [] a.act = "show"     -> Show
@@ -166,7 +175,7 @@ Actions ==
   \cup {A(x, c, "", "", 0, 0, 0) : x \in {"dispose", "open", "close", "status", "whilein", "whileindispose"}, c \in Cursors}
   \cup {A("fetch", c, "", pos, 0, 0, 0) : c \in Cursors, pos \in {"NEXT", "PRIOR", "FIRST", "LAST"}}
   \cup {A("fetch", c, "", pos, n, 0, 0) : c \in Cursors, pos \in {"ABSOLUTE", "RELATIVE"}, n \in Offsets}
-  \cup {A("insert", "", "", "", 0, id, v) : id \in Ids, v \in Vals}
+  \cup {A(x, "", "", "", 0, id, v) : x \in {"insert", "replace"}, id \in Ids, v \in Vals}
   \cup {A(x, "", "", "", 0, id, 0) : x \in {"update", "delete"}, id \in Ids}
   \cup {A(x, "", "", "", 0, 0, 0) : x \in {"commit", "rollback", "show"}}
 
